@@ -172,6 +172,26 @@ def oracle_sequence(sid, lines, outs):
     return fails, stats
 
 
+def oracle_create(cid, f, out):
+    """namespace creation: every layout the coordinator creates must be a valid start layout"""
+    fails = []
+    replica = int(f[0])
+    ret, w = out.split(" | ")
+    n = 0
+    for m in re.finditer(r"\{p=(\d+) ([^}]*) g=(\d+) (ok|fail)\}", w):
+        n += 1
+        info = parse_info(m.group(2))
+        bad = inv_fail(info, replica)
+        if not bad and info["rm"]:
+            bad = "a fresh layout has a removing entry"
+        if not bad and sorted(i[1] for i in info["ids"]) != list(range(1, len(info["nodes"]) + 1)):
+            bad = "fresh ids are not 1..n"
+        if bad:
+            fails.append(dict(name="create-%s" % cid, what="created layout invalid: " + bad,
+                              case=dict(at=cid, partition=int(m.group(1)), written=info)))
+    return fails, n
+
+
 def load_run(d):
     lines_by_seq = {}
     order = []
@@ -192,6 +212,17 @@ def oracle(d):
     nontrivial = set()
     for sid in order:
         lines = lines_by_seq[sid]
+        if lines[0][1] == "Z":
+            cid, _k, f = lines[0]
+            fs, n = oracle_create(cid, f, impl.get(cid, "missing | -"))
+            for x in fs:
+                x["case"]["cases_tsv"] = ["\t".join([cid, "Z"] + f)]
+            fails += fs
+            hist["Z"] = hist.get("Z", 0) + 1
+            stats["created_layouts"] = stats.get("created_layouts", 0) + n
+            if n:
+                nontrivial.add(vlib.case_hash("\t".join(f)))
+            continue
         fs, st = oracle_sequence(sid, lines, impl)
         for f in fs:
             at = f["case"].get("at", lines[-1][0])
@@ -207,7 +238,7 @@ def oracle(d):
     return fails, hist, stats, nontrivial, lines_by_seq, order, impl
 
 
-def run_impl(ctx, seed, n, sub, replay_file=None):
+def run_impl(ctx, seed, n, sub, replay_file=None, ncreate=0):
     d = os.path.join(ctx.run_dir, sub)
     shutil.rmtree(d, ignore_errors=True)
     os.makedirs(d)
@@ -216,7 +247,7 @@ def run_impl(ctx, seed, n, sub, replay_file=None):
     if replay_file:
         cmd = "%s -replay %s -out %s -port %d" % (binp, replay_file, d, port)
     else:
-        cmd = "%s -seed %d -n %d -out %s -port %d" % (binp, seed, n, d, port)
+        cmd = "%s -seed %d -n %d -ncreate %d -out %s -port %d" % (binp, seed, n, ncreate, d, port)
     rc, out, dt = sh(cmd, cwd=d, timeout=1500)
     if rc == 3:
         port = 36000 + ((os.getpid() + 499) % 1000)
@@ -261,7 +292,7 @@ def run(ctx):
 
     all_mism, all_fail, total, hist_all, stats_all, distinct, samples = [], [], 0, {}, {}, set(), []
     for sub, n, rfile in runs:
-        d, err = run_impl(ctx, ctx.seed, n, sub, rfile)
+        d, err = run_impl(ctx, ctx.seed, n, sub, rfile, ncreate=(60 if quick else 1500) if rfile is None else 0)
         if d is None:
             log("HARNESS RUN FAILED:\n" + err[-3000:])
             raise SystemExit(2)
@@ -270,6 +301,28 @@ def run(ctx):
                 ctx.notes.append(l)
         mism, cnt = vlib.diff_outputs(os.path.join(d, "impl.out"), os.path.join(d, "model.out"))
         fails, hist, stats, nontrivial, lines_by_seq, order, impl = oracle(d)
+        if mism and rfile is None:
+            # the data-node answers travel over loopback HTTP with the coordinator's own 3 s / 10 s timeouts: on an
+            # overloaded machine a timed-out request looks like a different answer. A genuine disagreement is
+            # deterministic, so the disagreeing sequences are re-run once and only what reproduces is kept.
+            sids = []
+            for m in mism:
+                sid = m[0].split(".")[0]
+                if sid not in sids:
+                    sids.append(sid)
+            rc = os.path.join(ctx.run_dir, "recheck_cases.tsv")
+            with open(rc, "w") as f:
+                for sid in sids[:200]:
+                    for c in lines_by_seq.get(sid, []):
+                        f.write("\t".join([c[0], c[1]] + c[2]) + "\n")
+            d2, err2 = run_impl(ctx, ctx.seed, 0, sub + "-recheck", rc)
+            if d2 is not None:
+                mism2, _ = vlib.diff_outputs(os.path.join(d2, "impl.out"), os.path.join(d2, "model.out"))
+                keep = set(m[0] for m in mism2)
+                dropped = [m for m in mism if m[0] not in keep and m[0].split(".")[0] in sids[:200]]
+                if dropped:
+                    ctx.notes.append("%d disagreement(s) did not reproduce on re-run (timing): %s" % (len(dropped), dropped[0][0]))
+                mism = [m for m in mism if m not in dropped]
         all_mism += mism
         all_fail += fails
         total += cnt
@@ -306,7 +359,8 @@ def run(ctx):
              "(under/over-replicated, optional pending removal, id gaps), events N (registered node set), A (HTTP answers of data nodes), "
              "T (clock), C (doCheckNamespaces full/single), M/D/R/F (bare handleNamespaceMigrate/addNamespaceToNode/"
              "removeNamespaceFromNode/removeNamespaceFromRemovings), X (register update failures), O (auto balance), "
-             "B (rebalanceNamespace), K/P (MarkNodeAsRemoving/processRemovingNodes). evaluations = events compared with the model; "
+             "B (rebalanceNamespace), K/P (MarkNodeAsRemoving/processRemovingNodes); Z = namespace creation on an empty register "
+             "(1..6 partitions). evaluations = events compared with the model; "
              "non-trivial = sequence with at least one register update attempt, distinct by hash of its event lines.",
         histogram=hist_all,
         mismatches=len(all_mism),
